@@ -21,6 +21,9 @@ import (
 // read of a per-server variable must have returned the value last committed on that server.
 func TestC08Deployed(t *testing.T) {
 	rapid.Check(t, func(t *rapid.T) {
+		if vstat.OverBudget() {
+			return
+		}
 		vstat.Case()
 		iv := sysbind.NewRaftInv()
 		run, msg := sysbind.DriveDeployed(t, sysbind.DeployedDriveOpts{MinClients: 1, MaxClients: 2, StepChoices: []int{300, 800, 1500},
